@@ -9,7 +9,7 @@
     Times are [Z]: nanoseconds since the epoch for in-memory [time.Time]
     values, whole seconds for the int64 fields of a dumped entry. gzip,
     protobuf and miekg Pack/Unpack are Section variables; their contracts are
-    hypotheses of the theorems (Proofs/Dump.v), never axioms. *)
+    hypotheses of the theorems (Proofs/Dump.v), never assumed globally. *)
 From Verif Require Import Base.Prelude Gen.Constants.
 Open Scope N_scope.
 
@@ -229,7 +229,7 @@ Section Dump.
       end
     end.
 
-  (** decode and admit block after block: items stored (in order), [en], error *)
+  (** decode and store block after block: items stored (in order), [en], error *)
   Fixpoint apply_blocks (now : Z) (ps : list bytes) : list item * N * option lerr :=
     match ps with
     | [] => ([], 0, None)
